@@ -24,6 +24,7 @@ FLIP = [0]      # orientation variant used by mk_graph (set per job): the defini
 
 
 _JOB_GRAPHS = {}   # id(graph description of the current job) -> (Graph object, description); cleared by _orient
+EORD = [0]      # order in which mk_graph adds the edges: 0 as listed, 1 reversed, 2 second half first (set per job)
 HIST = [False]  # history variant used by mk_graph: the Graph object is used for constraints while it is still being built
 
 
@@ -32,6 +33,7 @@ def _orient(job, explicit=None):
     without it).  In every other job that passes the option, the configuration defaults are set to the OPPOSITE value:
     an explicit argument wins over cspuz.config, so the verdicts must not change."""
     _JOB_GRAPHS.clear()
+    EORD[0] = job.get("eorder", (job.get("id", 0) // 2) % 3)
     FLIP[0] = job.get("flip", 0)
     HIST[0] = bool(job.get("hist", (job.get("id", 0) + job.get("flip", 0)) % 2))
     opposite = explicit is not None and bool(job.get("cfg_opposite", job.get("id", 0) % 2))
@@ -48,9 +50,13 @@ def mk_graph(g):
         # graph of a board once does): a helper must leave the Graph it is given alone
         return _JOB_GRAPHS[id(g)][0]
     G = cg.Graph(g["n"])
-    _JOB_GRAPHS[id(g)] = (G, g)
-    half = (len(g["edges"]) + 1) // 2 if HIST[0] and len(g["edges"]) >= 2 else -1
-    for i, (u, v) in enumerate(g["edges"]):
+    m = len(g["edges"])
+    # the edges are ADDED in another order than they are listed (EORD): edge number k of the Graph object is edge
+    # perm[k] of the description, and the per-edge arguments are handed over in that order too (edge_args)
+    perm = list(range(m)) if EORD[0] == 0 else list(range(m - 1, -1, -1)) if EORD[0] == 1 else list(range(m // 2, m)) + list(range(m // 2))
+    _JOB_GRAPHS[id(g)] = (G, g, perm)
+    half = (m + 1) // 2 if HIST[0] and m >= 2 else -1
+    for i, (u, v) in enumerate([g["edges"][k] for k in perm]):
         if i == half:
             _use_unfinished(G)
         if FLIP[0] == 1 or (FLIP[0] == 2 and i % 2 == 0):
@@ -58,6 +64,17 @@ def mk_graph(g):
         else:
             G.add_edge(u, v)
     return G
+
+
+def edge_args(g, arg):
+    """per-edge arguments (flags) in the order in which mk_graph added the edges of description g"""
+    mk_graph(g)
+    perm = _JOB_GRAPHS[id(g)][2]
+    if perm == list(range(len(perm))):
+        return arg
+    if isinstance(arg, BoolArray1D):
+        return BoolArray1D([arg[k] for k in perm])
+    return type(arg)(arg[k] for k in perm) if isinstance(arg, (list, tuple)) else arg
 
 
 def _use_unfinished(G):
@@ -215,7 +232,7 @@ def emit_conn(job):
 def _call_helper(s, job, arg):
     fam, obj = job["family"], job["obj"]
     if fam == "acyclic":
-        cg.active_edges_acyclic(s, arg, mk_graph(obj["graph"]))
+        cg.active_edges_acyclic(s, edge_args(obj["graph"], arg), mk_graph(obj["graph"]))
     elif fam == "notadj":
         if obj["kind"] == "grid":
             cg.active_vertices_not_adjacent(s, arg)
@@ -311,10 +328,10 @@ def run_cycle(job):
             else:
                 if form == "const":
                     arg = const_flags(bits)
-                    ret = cg.active_edges_single_cycle(s, arg, mk_graph(obj["graph"]), use_graph_primitive=job.get("prim", False))
+                    ret = cg.active_edges_single_cycle(s, edge_args(obj["graph"], arg), mk_graph(obj["graph"]), use_graph_primitive=job.get("prim", False))
                 else:
                     fl, _ = _edge_flags(s, obj, form)
-                    ret = cg.active_edges_single_cycle(s, fl.as_arg(), mk_graph(obj["graph"]), use_graph_primitive=job.get("prim", False))
+                    ret = cg.active_edges_single_cycle(s, edge_args(obj["graph"], fl.as_arg()), mk_graph(obj["graph"]), use_graph_primitive=job.get("prim", False))
                     fl.fix(bits)
                 passed = list(ret)
             s.add_answer_key(passed)
@@ -348,7 +365,7 @@ def emit_cycle(job):
             info = {"bits": [{"var": i, "neg": False} for i in ids], "fixed": []}
         else:
             fl, _ = _edge_flags(s, obj, form)
-            ret = fn(s, fl.as_arg(), mk_graph(obj["graph"]), use_graph_primitive=True)
+            ret = fn(s, edge_args(obj["graph"], fl.as_arg()), mk_graph(obj["graph"]), use_graph_primitive=True)
             passed = list(ret)
             shape_ok = len(passed) == obj["graph"]["n"]
             info = fl.emit_info()
@@ -557,7 +574,7 @@ def _border_setup(s, job, prim):
         return [{"var": i, "neg": False} for i in ids], []
     fl = Flags(s, m, job["form"])
     gs = None if kind == "none" else per_vertex
-    cg.division_connected_variable_groups_with_borders(s, group_size=gs, is_border=fl.as_arg(),
+    cg.division_connected_variable_groups_with_borders(s, group_size=gs, is_border=edge_args(obj["graph"], fl.as_arg()),
                                                        graph=mk_graph(obj["graph"]), use_graph_primitive=prim)
     info = fl.emit_info()
     return info["bits"], info["fixed"]
